@@ -34,6 +34,9 @@ type C16Round struct {
 	// next Yield callback; with an empty Send the replies are device-initiated
 	// (written from Yield once the module is active and the round is reached).
 	ViaYield bool `json:"via_yield,omitempty"`
+	// YieldOnReceive: the device module asks for a message break (yield) each
+	// time it has received a message of this round, whether or not it replies.
+	YieldOnReceive bool `json:"yield_on_receive,omitempty"`
 }
 
 type C16Module struct {
@@ -148,6 +151,7 @@ func (p *c16) Plan(tier string, seed uint64, i int) any {
 				round.Replies = append(round.Replies, C16Msg{Size: size(), Splits: 1 + r.IntN(4), Break: r.IntN(5) == 0})
 			}
 			round.ViaYield = len(round.Replies) > 0 && r.IntN(3) == 0
+			round.YieldOnReceive = r.IntN(4) == 0
 			if len(round.Send) == 0 && len(round.Replies) > 0 && !round.ViaYield {
 				round.Send = []C16Msg{{Size: size()}}
 			}
@@ -411,6 +415,9 @@ func (d *c16Device) Receive(ctx context.Context, name string, body io.Reader, re
 	}
 	rd := d.spec.Rounds[d.round]
 	d.seen++
+	if rd.YieldOnReceive {
+		yield()
+	}
 	if d.seen < len(rd.Send) {
 		return nil
 	}
@@ -533,6 +540,7 @@ func (p *c16) Exec(env *Env, plan any) {
 	}
 	var terr error
 	var d1 *Device
+	gotAtReturn := map[string]int{}
 	k.Go("dev1", func() {
 		var err error
 		d1, _, err = s.Provision(ctx, "dev1", "dev1", "mfg", "owner1")
@@ -542,6 +550,12 @@ func (p *c16) Exec(env *Env, plan any) {
 		}
 		_, terr = s.TO2(ctx, d1, "owner1", nil, TO2Opts{Kex: defaultKex(cfg), Cipher: kex.A128GcmCipher, Modules: devMods, MTU: uint16(pl.DevMTU),
 			Transport: tapTransport{s.Transport("dev1", "owner1"), tap}})
+		// what the device modules had received at the moment TO2 returned
+		lg.mu.Lock()
+		for name, msgs := range lg.devGot {
+			gotAtReturn[name] = len(msgs)
+		}
+		lg.mu.Unlock()
 	})
 	k.Run()
 	o.Steps, o.MultiSteps = k.Steps, k.MultiSteps
@@ -648,6 +662,10 @@ func (p *c16) Exec(env *Env, plan any) {
 				name := fmt.Sprintf("r%d", (ri*3+i)%5)
 				wantOwner[name] = append(wantOwner[name], c16Frame(c16Payload(m.Name, ri, i, rp.Size, 'd'))...)
 			}
+		}
+		if n := len(lg.devGot[m.Name]); gotAtReturn[m.Name] < n {
+			o.Class = "LATE-DELIVERY"
+			o.Violate("C16", "owner-to-device-stream", "after-to2-returned", "module %s: %d of %d messages reached the device module only after TO2 had returned (%s)", m.Name, n-gotAtReturn[m.Name], n, desc)
 		}
 		gotDev := c16MergeSameName(lg.devGot[m.Name])
 		wantDevM := c16MergeSameName(wantDev)
